@@ -91,6 +91,30 @@ def _is_const_fstring(e) -> bool:
     return False
 
 
+def _escaped_then_constant_sub(repo: Repo, f, arg) -> bool:
+    """``<regex>.sub(<replacement>, markupsafe_escape(<x>))`` where the replacement is a string
+    constant, or a parameter of a private helper to which every call site in the module passes a
+    string constant: escaping first and substituting constants keeps the value safe."""
+    from ..astutil import bind_args as _bind
+
+    if not (isinstance(arg, ast.Call) and callee_name(arg) == "sub" and len(arg.args) == 2):
+        return False
+    repl, val = arg.args
+    if not (isinstance(val, ast.Call) and callee_name(val) in ("markupsafe_escape", "escape") and len(val.args) == 1):
+        return False
+    if isinstance(repl, ast.Constant) and isinstance(repl.value, str):
+        return True
+    if isinstance(repl, ast.Name) and repl.id in f.params() and f.name.startswith("_"):
+        sites = []
+        for g in list(f.module.functions.values()) + [m for c in f.module.classes.values() for m in c.methods.values()]:
+            for cc in ast.walk(g.node):
+                if isinstance(cc, ast.Call) and (is_name(cc.func, f.name) or (isinstance(cc.func, ast.Attribute) and cc.func.attr == f.name)):
+                    b = _bind(cc, f.node, skip_self=f.cls is not None)
+                    sites.append(b.get(repl.id) if b else None)
+        return bool(sites) and all(isinstance(a, ast.Constant) and isinstance(a.value, str) for a in sites)
+    return False
+
+
 def run(repo: Repo) -> Result:
     res = Result(PID)
     res.rules = ["C05-SINK", "C05-ESCAPE", "C05-MARKUP", "C05-LITERAL", "C05-REG", "C05-FLAG"]
@@ -115,6 +139,45 @@ def run(repo: Repo) -> Result:
             f = _NF(f0, _propagate(_copy.deepcopy(f0.node)))
             bufs_from_get_buffer = {t.id for st in ast.walk(f.node) if isinstance(st, ast.Assign) and isinstance(unwrap_await(st.value), ast.Call) and callee_name(unwrap_await(st.value)) == "get_buffer" for t in st.targets if isinstance(t, ast.Name)}
             getvalue_vars = {t.id for st in ast.walk(f.node) if isinstance(st, ast.Assign) and isinstance(st.value, ast.Call) and callee_name(st.value) == "getvalue" and isinstance(call_recv(st.value), ast.Name) and call_recv(st.value).id in bufs_from_get_buffer for t in st.targets if isinstance(t, ast.Name)}
+            def classify(fn, arg, depth=0):
+                """(ok, why) for a value written to the output inside method ``fn`` of class c"""
+                bufs = {t.id for st in ast.walk(fn.node) if isinstance(st, ast.Assign) and isinstance(unwrap_await(st.value), ast.Call) and callee_name(unwrap_await(st.value)) == "get_buffer" for t in st.targets if isinstance(t, ast.Name)}
+                gv = {t.id for st in ast.walk(fn.node) if isinstance(st, ast.Assign) and isinstance(st.value, ast.Call) and callee_name(st.value) == "getvalue" and isinstance(call_recv(st.value), ast.Name) and call_recv(st.value).id in bufs for t in st.targets if isinstance(t, ast.Name)}
+                if arg is None:
+                    return False, ""
+                if _is_const_fstring(arg):
+                    return True, "constant"
+                if attr_chain(arg) == ["self", "text"] and c.qual == "liquid.builtin.content.ContentNode":
+                    return True, "template text"
+                if isinstance(arg, ast.Call) and callee_name(arg) == "to_liquid_string":
+                    return True, "to_liquid_string"
+                if isinstance(arg, ast.Call) and is_name(arg.func, "str") and isinstance(arg.args[0], ast.Call) and callee_name(arg.args[0]) in ("increment", "decrement"):
+                    return True, "integer counter"
+                if isinstance(arg, ast.Name) and arg.id in gv:
+                    return True, "rendered output of an intermediate buffer"
+                if isinstance(arg, ast.Call) and callee_name(arg) == "getvalue" and isinstance(call_recv(arg), ast.Name) and call_recv(arg).id in bufs:
+                    return True, "rendered output of an intermediate buffer"
+                if isinstance(arg, ast.Call) and is_self_attr(arg.func, "_format_message") and c.name == "TranslateNode":
+                    return True, "translate message (checked below)"
+                if f"{fn.qual}|{text(arg)[:60]}" in REVIEWED_SINK:
+                    return True, "reviewed"
+                # a parameter of a private helper of this class: judged at every call site
+                if isinstance(arg, ast.Name) and depth < 2 and fn.name.startswith("_") and arg.id in fn.params() and arg.id not in ("self", "cls"):
+                    from ..astutil import bind_args as _bind
+
+                    sites = []
+                    for g0 in c.methods.values():
+                        if g0.qual == fn.qual:
+                            continue
+                        g = _NF(g0, _propagate(_copy.deepcopy(g0.node)))
+                        for cc in ast.walk(g.node):
+                            if isinstance(cc, ast.Call) and is_self_attr(cc.func, fn.name):
+                                b = _bind(cc, fn.node)
+                                sites.append((g, b.get(arg.id) if b else None))
+                    if sites and all(a is not None and classify(g, a, depth + 1)[0] for g, a in sites):
+                        return True, f"parameter of a private helper; every call site passes: {sorted({classify(g, a, depth + 1)[1] for g, a in sites})}"
+                return False, ""
+
             for w in ast.walk(f.node):
                 if not (isinstance(w, ast.Call) and callee_name(w) == "write" and isinstance(w.func, ast.Attribute)):
                     continue
@@ -122,24 +185,7 @@ def run(repo: Repo) -> Result:
                 arg = w.args[0] if w.args else None
                 construct = f"{f.qual}|{text(arg)[:60] if arg is not None else ''}"
                 res.ob(construct)
-                ok = False
-                why = ""
-                if arg is None:
-                    ok = False
-                elif _is_const_fstring(arg):
-                    ok, why = True, "constant"
-                elif attr_chain(arg) == ["self", "text"] and c.qual == "liquid.builtin.content.ContentNode":
-                    ok, why = True, "template text"
-                elif isinstance(arg, ast.Call) and callee_name(arg) == "to_liquid_string":
-                    ok, why = True, "to_liquid_string"
-                elif isinstance(arg, ast.Call) and is_name(arg.func, "str") and isinstance(arg.args[0], ast.Call) and callee_name(arg.args[0]) in ("increment", "decrement"):
-                    ok, why = True, "integer counter"
-                elif isinstance(arg, ast.Name) and arg.id in getvalue_vars:
-                    ok, why = True, "rendered output of an intermediate buffer"
-                elif isinstance(arg, ast.Call) and is_self_attr(arg.func, "_format_message") and c.name == "TranslateNode":
-                    ok, why = True, "translate message (checked below)"
-                elif construct in REVIEWED_SINK:
-                    ok, why = True, "reviewed"
+                ok, why = classify(f, arg)
                 if not ok:
                     res.add("C05-SINK", f.qual, f"write:{text(arg)[:50] if arg is not None else ''}", f"{f.qual} writes `{text(arg)[:70] if arg is not None else ''}` to the output without going through to_liquid_string: render data reaches the output unescaped under autoescape", f.file, w.lineno)
                 else:
@@ -150,8 +196,36 @@ def run(repo: Repo) -> Result:
     fm0 = repo.own_method("liquid.extra.tags.translate_tag.TranslateNode", "_format_message")
     fm = _NF(fm0, _propagate(_copy.deepcopy(fm0.node)))
     res.ob(fm.qual, 2)
-    t = text(fm.node)
-    if "to_liquid_string(context.resolve(k), autoescape=context.env.autoescape)" not in t or "return message_text % _vars" not in t:
+    # every value of the mapping that is the right operand of `%` is
+    # to_liquid_string(<context.resolve(...)>, autoescape=context.env.autoescape) — whether the
+    # mapping is a dict comprehension or filled in a loop — and the left operand is the message text
+    fm_ok = False
+    mods_fm = [n for n in ast.walk(fm.node) if isinstance(n, ast.BinOp) and isinstance(n.op, ast.Mod)]
+    if len(mods_fm) == 1 and isinstance(mods_fm[0].right, ast.Name) and isinstance(mods_fm[0].left, ast.Name) and mods_fm[0].left.id in fm.orig.params():
+        mv = mods_fm[0].right.id
+        vals = []
+        for st in ast.walk(fm.node):
+            tg = st.targets[0] if isinstance(st, ast.Assign) and len(st.targets) == 1 else st.target if isinstance(st, ast.AnnAssign) else None
+            if tg is None or getattr(st, "value", None) is None:
+                continue
+            if is_name(tg, mv):
+                if isinstance(st.value, ast.DictComp):
+                    vals.append(st.value.value)
+                elif isinstance(st.value, ast.Dict):
+                    vals += list(st.value.values)
+                else:
+                    vals.append(st.value)
+            elif isinstance(tg, ast.Subscript) and is_name(tg.value, mv):
+                vals.append(st.value)
+
+        def escaped_value(v) -> bool:
+            if not (isinstance(v, ast.Call) and callee_name(v) == "to_liquid_string" and v.args):
+                return False
+            flag = v.args[1] if len(v.args) > 1 else next((k.value for k in v.keywords if k.arg == "autoescape"), None)
+            return flag is not None and text(flag) in ("context.env.autoescape", "context.autoescape") and isinstance(v.args[0], ast.Call) and callee_name(v.args[0]) == "resolve"
+
+        fm_ok = bool(vals) and all(escaped_value(v) for v in vals)
+    if not fm_ok:
         res.add("C05-SINK", fm.qual, "format", "TranslateNode._format_message must interpolate to_liquid_string(..., autoescape=context.env.autoescape) values into the Markup message with %", fm.file, fm.line)
 
     # ---- C05-ESCAPE --------------------------------------------------------------
@@ -260,6 +334,7 @@ def run(repo: Repo) -> Result:
 
     # ---- C05-MARKUP ---------------------------------------------------------------
     seen = set()
+    used_rows: set[str] = set()
     for f in repo.all_functions():
         loc = None
         for n in ast.walk(f.node):
@@ -278,6 +353,10 @@ def run(repo: Repo) -> Result:
                 seen.add(key)
                 res.ob(f"markup:{key}")
                 row = REVIEWED_MARKUP.get(key)
+                if row is None and _escaped_then_constant_sub(repo, f, arg):
+                    row = ("escaped-then-constant-sub", "the value is HTML-escaped in place and only a constant replacement is substituted into it")
+                if row is not None:
+                    used_rows.add(f.qual)
                 if row is None:
                     res.add("C05-MARKUP", f.qual, f"Markup({ltext(arg, loc)[:50] if arg is not None else ''})", f"{f.qual} marks `{text(arg)[:60] if arg is not None else ''}` as safe markup; this construction is not in the reviewed table (constant / template literal / escaped value / closed alphabet / rendered output)", f.file, n.lineno)
                 else:
@@ -311,8 +390,13 @@ def run(repo: Repo) -> Result:
         ("liquid.builtin.filters.string.escape", "return markupsafe_escape(str(val))", "escape-filter"),
         ("liquid.extra.filters.translate.BaseTranslateFilter.format_message", "if isinstance(message_text, Markup):", "already-markup-test"),
     ]
+    def has_markup(q) -> bool:
+        return any(isinstance(n, ast.Call) and isinstance(n.func, ast.Name) and n.func.id in MARKUP_CTORS for n in ast.walk(repo.func(q).node))
+
     for q, frag, name in conds:
         res.ob(f"cond:{q}:{name}")
+        if name != "escape-filter" and not has_markup(q):
+            continue  # the row is not in use: the function no longer marks anything safe itself
         loc_q = local_names(repo.func(q).node)
         if lfrag(frag, loc_q) not in ltext(repo.func(q).node, loc_q):
             res.add("C05-MARKUP", q, f"condition:{name}", f"{q}: the reviewed Markup row relies on `{frag}`, which is no longer there", repo.func(q).file, repo.func(q).line)
@@ -320,6 +404,8 @@ def run(repo: Repo) -> Result:
     for q in ("liquid.builtin.filters.string.newline_to_br", "liquid.builtin.filters.string.strip_newlines"):
         f = repo.func(q)
         res.ob(f"cond:{q}:order")
+        if not has_markup(q):
+            continue
         iff = next((n for n in ast.walk(f.node) if isinstance(n, ast.If) and "environment.autoescape" in text(n.test)), None)
         if iff is None or len(iff.body) != 2 or text(iff.body[0]) != "val = markupsafe_escape(val)" or not isinstance(iff.body[1], ast.Return):
             res.add("C05-MARKUP", q, "condition:escape-dominates", f"{q}: under autoescape the value must be escaped immediately before the constant substitution", f.file, f.line)
@@ -453,6 +539,11 @@ def run(repo: Repo) -> Result:
                 res.ob(f"flag:{f.qual}")
                 flag = c.args[1] if len(c.args) > 1 else next((k.value for k in c.keywords if k.arg == "autoescape"), None)
                 ft = text(flag) if flag is not None else None
+                plain_false = isinstance(flag, ast.Constant) and flag.value is False and not any(isinstance(n, ast.Call) and ((isinstance(n.func, ast.Name) and n.func.id in MARKUP_CTORS) or callee_name(n) == "write") for n in ast.walk(f.node))
+                if plain_false:
+                    # stringified WITHOUT escaping into a plain str that this function neither marks
+                    # safe nor writes: the output statement escapes the result like any other string
+                    continue
                 if ft not in ok_flags:
                     res.add("C05-FLAG", f.qual, f"flag:{ft}", f"{f.qual}: to_liquid_string is called with autoescape={ft}; it must be the context's/environment's autoescape flag", f.file, c.lineno)
                 elif ft == "autoescape":
